@@ -747,7 +747,9 @@ DLLIMPORT int cfg_parse_boolean(const char *s)
 	return CFG_FAIL;
 }
 
-static void cfg_init_defaults(cfg_t *cfg)
+/* Returns 0, or -1 when a default could not be installed (out of memory, or a
+ * default value that does not parse) */
+static int cfg_init_defaults(cfg_t *cfg)
 {
 	int i;
 
@@ -834,24 +836,26 @@ static void cfg_init_defaults(cfg_t *cfg)
 					fprintf(stderr, "Parse error in default value '%s'"
 						" for option '%s'\n", cfg->opts[i].def.parsed, cfg->opts[i].name);
 					fprintf(stderr, "Check your initialization macros and the" " libConfuse documentation\n");
-					abort();
+					return -1;
 				}
 			} else {
+				int rc = CFG_SUCCESS;
+
 				switch (cfg->opts[i].type) {
 				case CFGT_INT:
-					cfg_opt_setnint(&cfg->opts[i], cfg->opts[i].def.number, 0);
+					rc = cfg_opt_setnint(&cfg->opts[i], cfg->opts[i].def.number, 0);
 					break;
 
 				case CFGT_FLOAT:
-					cfg_opt_setnfloat(&cfg->opts[i], cfg->opts[i].def.fpnumber, 0);
+					rc = cfg_opt_setnfloat(&cfg->opts[i], cfg->opts[i].def.fpnumber, 0);
 					break;
 
 				case CFGT_BOOL:
-					cfg_opt_setnbool(&cfg->opts[i], cfg->opts[i].def.boolean, 0);
+					rc = cfg_opt_setnbool(&cfg->opts[i], cfg->opts[i].def.boolean, 0);
 					break;
 
 				case CFGT_STR:
-					cfg_opt_setnstr(&cfg->opts[i], cfg->opts[i].def.string, 0);
+					rc = cfg_opt_setnstr(&cfg->opts[i], cfg->opts[i].def.string, 0);
 					break;
 
 				case CFGT_FUNC:
@@ -862,6 +866,8 @@ static void cfg_init_defaults(cfg_t *cfg)
 					cfg_error(cfg, "internal error in cfg_init_defaults(%s)", cfg->opts[i].name);
 					break;
 				}
+				if (rc != CFG_SUCCESS)
+					return -1;
 			}
 
 			/* The default value should only be returned if no value
@@ -872,10 +878,13 @@ static void cfg_init_defaults(cfg_t *cfg)
 			cfg->opts[i].flags |= CFGF_RESET;
 			cfg->opts[i].flags &= ~CFGF_MODIFIED;
 		} else if (!is_set(CFGF_MULTI, cfg->opts[i].flags)) {
-			cfg_setopt(cfg, &cfg->opts[i], NULL);
+			if (!cfg_setopt(cfg, &cfg->opts[i], NULL))
+				return -1;
 			cfg->opts[i].flags |= CFGF_DEFINIT;
 		}
 	}
+
+	return 0;
 }
 
 /* A new, still empty instance of the section option opt; NULL (and nothing
@@ -1170,6 +1179,13 @@ DLLIMPORT cfg_value_t *cfg_setopt(cfg_t *cfg, cfg_opt_t *opt, const char *value)
 		if (is_set(CFGF_MULTI, opt->flags) || val->section == NULL) {
 			cfg_t *sec = cfg_new_section(cfg, opt, value);
 
+			/* a new instance always starts from the declared defaults,
+			 * also the one that replaces a removed single section */
+			if (sec && cfg_init_defaults(sec) != 0) {
+				cfg_free(sec);
+				sec = NULL;
+			}
+
 			if (!sec) {
 				/* Keep what was there.  A cell added for this very
 				 * call (always the last one) goes away again. */
@@ -1185,9 +1201,6 @@ DLLIMPORT cfg_value_t *cfg_setopt(cfg_t *cfg, cfg_opt_t *opt, const char *value)
 				cfg_free(val->section);
 			}
 			val->section = sec;
-			/* a new instance always starts from the declared defaults,
-			 * also the one that replaces a removed single section */
-			cfg_init_defaults(val->section);
 		}
 		break;
 
@@ -1466,6 +1479,8 @@ static int cfg_parse_internal(cfg_t *cfg, int level, int force_state, cfg_opt_t 
 				if (comment)
 					free(comment);
 				comment = strdup(cfg_yylval);
+				if (!comment)
+					goto error;
 				continue;
 
 			default:
@@ -1565,7 +1580,8 @@ static int cfg_parse_internal(cfg_t *cfg, int level, int force_state, cfg_opt_t 
 				goto error;
 
 			/* Inherit last read comment */
-			cfg_opt_setcomment(opt, comment);
+			if (comment && cfg_opt_setcomment(opt, comment) != CFG_SUCCESS)
+				goto error;
 			if (comment)
 				free(comment);
 			comment = NULL;
@@ -1591,7 +1607,8 @@ static int cfg_parse_internal(cfg_t *cfg, int level, int force_state, cfg_opt_t 
 					goto error;
 
 				/* Inherit last read comment */
-				cfg_opt_setcomment(opt, comment);
+				if (comment && cfg_opt_setcomment(opt, comment) != CFG_SUCCESS)
+					goto error;
 				if (comment)
 					free(comment);
 				comment = NULL;
@@ -2010,7 +2027,10 @@ DLLIMPORT cfg_t *cfg_init(cfg_opt_t *opts, cfg_flag_t flags)
 	bindtextdomain(PACKAGE, LOCALEDIR);
 #endif
 
-	cfg_init_defaults(cfg);
+	if (cfg_init_defaults(cfg) != 0) {
+		cfg_free(cfg);
+		return NULL;
+	}
 
 	return cfg;
 }
@@ -2385,10 +2405,10 @@ DLLIMPORT int cfg_setstr(cfg_t *cfg, const char *name, const char *value)
 
 static int cfg_addlist_internal(cfg_opt_t *opt, unsigned int nvalues, va_list ap)
 {
-	int result = CFG_FAIL;
+	int result = CFG_SUCCESS;
 	unsigned int i;
 
-	for (i = 0; i < nvalues; i++) {
+	for (i = 0; i < nvalues && result == CFG_SUCCESS; i++) {
 		switch (opt->type) {
 		case CFGT_INT:
 			result = cfg_opt_setnint(opt, va_arg(ap, int), opt->nvalues);
@@ -2420,6 +2440,7 @@ static int cfg_addlist_internal(cfg_opt_t *opt, unsigned int nvalues, va_list ap
 DLLIMPORT int cfg_setlist(cfg_t *cfg, const char *name, unsigned int nvalues, ...)
 {
 	va_list ap;
+	int result;
 	cfg_opt_t *opt = cfg_getopt(cfg, name);
 
 	if (!opt || !is_set(CFGF_LIST, opt->flags)) {
@@ -2429,15 +2450,16 @@ DLLIMPORT int cfg_setlist(cfg_t *cfg, const char *name, unsigned int nvalues, ..
 
 	cfg_free_value(opt);
 	va_start(ap, nvalues);
-	cfg_addlist_internal(opt, nvalues, ap);
+	result = cfg_addlist_internal(opt, nvalues, ap);
 	va_end(ap);
 
-	return CFG_SUCCESS;
+	return result;
 }
 
 DLLIMPORT int cfg_addlist(cfg_t *cfg, const char *name, unsigned int nvalues, ...)
 {
 	va_list ap;
+	int result;
 	cfg_opt_t *opt = cfg_getopt(cfg, name);
 
 	if (!opt || !is_set(CFGF_LIST, opt->flags)) {
@@ -2449,10 +2471,10 @@ DLLIMPORT int cfg_addlist(cfg_t *cfg, const char *name, unsigned int nvalues, ..
 	opt->flags &= ~CFGF_RESET;
 
 	va_start(ap, nvalues);
-	cfg_addlist_internal(opt, nvalues, ap);
+	result = cfg_addlist_internal(opt, nvalues, ap);
 	va_end(ap);
 
-	return CFG_SUCCESS;
+	return result;
 }
 
 DLLIMPORT cfg_t *cfg_addtsec(cfg_t *cfg, const char *name, const char *title)
